@@ -119,8 +119,10 @@ impl FixtureDatabase {
         // if the content has changed and rebuild if necessary.
 
         // Clear previous fixture definitions from this file (only when re-analyzing)
-        // Skip this during initial workspace scan for performance
-        if cleanup_previous {
+        // Skip this during initial workspace scan for performance — unless the scan reaches a
+        // file that was analyzed before and whose cached text was dropped since (a document
+        // opened and closed again, eviction): its old definitions are still in the index.
+        if cleanup_previous || self.file_definitions.contains_key(&file_path) {
             self.cleanup_definitions_for_file(&file_path);
         }
 
